@@ -994,6 +994,32 @@ def real_dtd_elem(dtd_text: str):
 
 
 # --------------------------------------------------------------------------
+# compound fields  (model: lean/XsdataModel/Gen/Compound.lean)
+# --------------------------------------------------------------------------
+def real_compound(sites):
+    """the real CreateCompoundFields (compound fields enabled) on a constructed class"""
+    from xsdata.codegen.container import ClassContainer
+    from xsdata.codegen.handlers import CreateCompoundFields
+    from xsdata.models.config import GeneratorConfig
+    from xsdata.models.enums import Tag
+
+    cfg = GeneratorConfig()
+    cfg.output.compound_fields.enabled = True
+    container = ClassContainer(cfg)
+    target = build_class(sites)
+    container.extend([target])
+    CreateCompoundFields(container).process(target)
+    out = []
+    for a in target.attrs:
+        if a.tag == Tag.CHOICE:
+            r = a.restrictions
+            out.append({"compound": {"names": [c.name for c in a.choices], "min": r.min_occurs, "max": r.max_occurs, "sequence": r.sequence}})
+        else:
+            out.append({"plain": a.name})
+    return out
+
+
+# --------------------------------------------------------------------------
 # real sites
 # --------------------------------------------------------------------------
 def renumber(sites):
